@@ -46,6 +46,7 @@ Proof.
   - intros f pid x IHx H. apply andb_true_iff in H. destruct H as [Hx Hf]. split; [apply IHx; exact Hx|].
     destruct f; try exact I; apply negb_true_iff in Hf; exact Hf.
   - intros pid it mn IHi IHm H. apply andb_true_iff in H. destruct H as [Hi Hm]. split; [apply IHi | apply IHm]; assumption.
+  - intros k i H. destruct k; try exact I; discriminate H.
   - intros n x _ H. discriminate H.
   - intros x l IHx IHl H. cbn [forallb] in H. apply andb_true_iff in H. destruct H as [Hx Hl]. split; [apply IHx | apply IHl]; assumption.
 Qed.
@@ -131,14 +132,14 @@ Proof.
     + repeat match goal with |- context [let '(a, b) := ?X in _] => destruct X end; reflexivity.
     + repeat match goal with |- context [let '(a, b) := ?X in _] => destruct X end; destruct items; reflexivity.
     + destruct f; reflexivity.
-    + destruct k; reflexivity.
+    + destruct k; try reflexivity; unfold the_node; destruct (String.eqb _ "perFrameHook"); reflexivity.
     + unfold the_name_node. destruct (assoc_str (nm en n) ASSIGN_KNOWN_PROPERTIES); reflexivity.
   - repeat match goal with |- context [let '(a, b) := ?X in _] => destruct X end; reflexivity.
   - repeat match goal with |- context [let '(a, b) := ?X in _] => destruct X end; reflexivity.
   - repeat match goal with |- context [let '(a, b) := ?X in _] => destruct X end; reflexivity.
   - repeat match goal with |- context [let '(a, b) := ?X in _] => destruct X end; destruct items; reflexivity.
   - destruct f; reflexivity.
-  - destruct k; reflexivity.
+  - destruct k; try reflexivity; unfold the_node; destruct (String.eqb _ "perFrameHook"); reflexivity.
   - unfold the_name_node. destruct (assoc_str (nm en n) ASSIGN_KNOWN_PROPERTIES); reflexivity.
 Qed.
 
